@@ -92,27 +92,32 @@ func c16R1(p *core.Program, r *core.Report) {
 			return ok && sel.Sel.Name == name
 		}
 	}
+	// the guards are evaluated where the template is constructed (it may be yielded later through a variable)
+	sitesOf := func(f *core.Func, marker string) []templateSite {
+		var out []templateSite
+		for _, s := range templateSites(p) {
+			if s.F == f && s.IsConst && strings.Contains(s.Format, marker) {
+				out = append(out, s)
+			}
+		}
+		return out
+	}
 	// cases
 	{
 		f := casesLit
 		info := f.Info()
 		g := graph(f)
-		y := yieldParam(f)
-		n := 0
-		for _, c := range core.Calls(f.Body, true) {
-			if core.VarOf(info, c.Fun) != y {
-				continue
-			}
-			n++
-			facts := g.FactsAt(g.PointOf(c))
+		ss := sitesOf(f, "case @")
+		for _, s := range ss {
+			facts := g.FactsAt(g.PointOf(s.Call))
 			exported := hasCallFact(info, facts, true, func(cc *ast.CallExpr) bool { return core.CalleeName(info, cc) == "go/ast.IsExported" }) ||
 				hasCallFact(info, facts, true, methodFact(f, "Exported"))
 			notEmbedded := hasCallFact(info, facts, false, methodFact(f, "Embedded"))
-			r.Check(exported && notEmbedded, rule, f, "a case is emitted exactly for exported, non-embedded fields", c.Pos(), "yield dominated by IsExported(name) and !Embedded()",
+			r.Check(exported && notEmbedded, rule, f, "a case is emitted exactly for exported, non-embedded fields", s.Call.Pos(), "case template dominated by IsExported(name) and !Embedded()",
 				"the case for a field is not guarded by `exported && !embedded`: unexported fields are listed or exported ones are missing")
 		}
-		if n == 0 {
-			r.Anchor(rule, "yield in the 'cases' closure")
+		if len(ss) == 0 {
+			r.Anchor(rule, "case template in the 'cases' closure")
 		}
 	}
 	// embeds
@@ -120,44 +125,44 @@ func c16R1(p *core.Program, r *core.Report) {
 		f := embedsLit
 		info := f.Info()
 		g := graph(f)
-		y := yieldParam(f)
 		var byAddr, byValue bool
-		for _, c := range core.Calls(f.Body, true) {
-			if core.VarOf(info, c.Fun) != y || len(c.Args) != 1 {
-				continue
-			}
-			facts := g.FactsAt(g.PointOf(c))
-			embedded := hasCallFact(info, facts, true, methodFact(f, "Embedded"))
-			r.Check(embedded, rule, f, "a delegation is emitted exactly for embedded fields", c.Pos(), "yield dominated by Embedded()", "a delegation is emitted for a field that is not embedded (or the guard was dropped)")
-			// pointer choice
-			format := ""
-			if tc, ok := ast.Unparen(c.Args[0]).(*ast.CallExpr); ok && len(tc.Args) > 0 {
-				format, _ = core.ConstString(info, tc.Args[0])
-			}
-			isPtrFact := func(val bool) bool {
-				for _, fct := range facts {
-					v := core.VarOf(info, fct.Cond)
-					if v == nil || fct.Val != val {
-						continue
-					}
-					if d, ok := core.SingleDef(info, f.Body, v); ok && d.Index == 1 {
-						if ta, ok := ast.Unparen(d.Rhs).(*ast.TypeAssertExpr); ok && core.NamedTypeName(info.TypeOf(ta.Type)) == "go/types.Pointer" {
-							return true
-						}
+		isPtrFact := func(facts []cfgx.Fact, val bool) bool {
+			for _, fct := range facts {
+				v := core.VarOf(info, fct.Cond)
+				if v == nil || fct.Val != val {
+					continue
+				}
+				if d, ok := core.SingleDef(info, f.Body, v); ok && d.Index == 1 {
+					if ta, ok := ast.Unparen(d.Rhs).(*ast.TypeAssertExpr); ok && core.NamedTypeName(info.TypeOf(ta.Type)) == "go/types.Pointer" {
+						return true
 					}
 				}
-				return false
 			}
+			return false
+		}
+		for _, s := range sitesOf(f, "runtimeDoc(") {
+			facts := g.FactsAt(g.PointOf(s.Call))
+			embedded := hasCallFact(info, facts, true, methodFact(f, "Embedded"))
+			r.Check(embedded, rule, f, "a delegation is emitted exactly for embedded fields", s.Call.Pos(), "delegation template dominated by Embedded()", "a delegation is emitted for a field that is not embedded (or the guard was dropped)")
 			switch {
-			case strings.Contains(format, "runtimeDoc(&v."):
+			case strings.Contains(s.Format, "runtimeDoc(&v."):
 				byAddr = true
-				r.Check(isPtrFact(false), rule, f, "value-embedded fields are delegated by address", c.Pos(), "`&v.F` under 'not a pointer'", "`&v.F` is emitted for a field that may already be a pointer (a **T has no RuntimeDoc method)")
-			case strings.Contains(format, "runtimeDoc(v."):
+				r.Check(isPtrFact(facts, false), rule, f, "value-embedded fields are delegated by address", s.Call.Pos(), "`&v.F` under 'not a pointer'", "`&v.F` is emitted for a field that may already be a pointer (a **T has no RuntimeDoc method)")
+			case strings.Contains(s.Format, "runtimeDoc(v."):
 				byValue = true
-				r.Check(isPtrFact(true), rule, f, "pointer-embedded fields are delegated as they are", c.Pos(), "`v.F` under 'is a pointer'", "`v.F` is emitted for a field that may be a struct value (its pointer-receiver RuntimeDoc is not found through the interface)")
+				r.Check(isPtrFact(facts, true), rule, f, "pointer-embedded fields are delegated as they are", s.Call.Pos(), "`v.F` under 'is a pointer'", "`v.F` is emitted for a field that may be a struct value (its pointer-receiver RuntimeDoc is not found through the interface)")
 			}
 		}
 		r.Check(byAddr && byValue, rule, f, "both delegation forms exist", f.Node().Pos(), "v.F and &v.F", "one of the two delegation forms (by value for pointers, by address for values) is missing")
+		// something is yielded in the closure
+		y := yieldParam(f)
+		ny := 0
+		for _, c := range core.Calls(f.Body, true) {
+			if core.VarOf(info, c.Fun) == y {
+				ny++
+			}
+		}
+		r.Check(ny >= 1, rule, f, "the delegation snippets are yielded", f.Node().Pos(), itoa(int64(ny))+" yield(s)", "the embeds closure yields nothing")
 	}
 }
 
